@@ -174,3 +174,20 @@ def snapshot_dir(d):
 
 def diff_snapshots(a, b):
     return sorted(set(k for k in b if a.get(k) != b[k]) | set(k for k in a if k not in b))
+
+
+def clone_program(program):
+    """copy.deepcopy(program) as a user would get it: the recorder's per-instance execute wrappers are taken off for the
+    copy and put back afterwards (they are closures over the original commands)."""
+    import copy
+    wrapped = {}
+    for name, cmd in program.commands.items():
+        if "execute" in cmd.__dict__:
+            wrapped[name] = cmd.__dict__.pop("execute")
+            cmd.__dict__.pop("_mpv_wrapped", None)
+    try:
+        return copy.deepcopy(program)
+    finally:
+        for name, fn in wrapped.items():
+            program.commands[name].__dict__["execute"] = fn
+            program.commands[name].__dict__["_mpv_wrapped"] = True
